@@ -306,8 +306,20 @@ def r1c_compound_kernels(ctx):
     def bad(key, fn, msg):
         first_bad.setdefault(key, (fn, msg))
 
-    for nb in ([2, 3] if ctx.thorough else [2]):
-        for env in _two_block_cases(it, S, ctx.thorough, nb):
+    # metric coincidences that no order type pins down: blocks whose summed lengths equal the span although a gap is left (the
+    # overlap is as long as the gap), equal blocks repeated, a one-base gap between long blocks
+    designed = [((0, 10), (5, 15), (20, 25)), ((0, 1), (0, 1), (2, 3)), ((0, 4), (2, 6), (8, 10)), ((3, 9), (3, 9), (15, 21)),
+                ((0, 6), (2, 4), (8, 10)), ((0, 2), (1, 3), (2, 4), (5, 6)), ((0, 30), (31, 60))]
+
+    def all_cases():
+        for nb_ in ([2, 3] if ctx.thorough else [2]):
+            for env_ in _two_block_cases(it, S, ctx.thorough, nb_):
+                yield nb_, env_
+        for lay_ in designed:
+            yield len(lay_), {k_: v_ for i_, (s_, e_) in enumerate(lay_) for k_, v_ in ((f"s{i_}", s_), (f"e{i_}", e_))}
+
+    for nb, env in all_cases():
+        if True:
             bl = [(env[f"s{i}"], env[f"e{i}"]) for i in range(nb)]
             for st in (S["PLUS"], S["MINUS"]):
                 # constructor: blocks given in reverse order must come out sorted
@@ -601,6 +613,12 @@ def r8_parents(ctx):
         # parents without an id (every documented way of giving one): sharing the id None does not make a parent-less operand comparable
         "typed parent without id": (lambda: mk_parent(it, sequence_type=st["CHROMOSOME"])),
         "sequence parent without id": (lambda: mk_parent(it, sequence=mk_sequence(it, "ACGTACGTACGTACGTACGT"))),
+        # the same id with and without sequence data, and with other sequence data: three systems (a parent that carries a
+        # sequence is not the bare name)
+        "chr1 carrying a sequence": (lambda: mk_parent(it, id="chr1", sequence_type=st["CHROMOSOME"],
+                                                         sequence=mk_sequence(it, "ACGTACGTACGTACGTACGT", id="chr1", type=st["CHROMOSOME"]))),
+        "chr1 carrying another sequence": (lambda: mk_parent(it, id="chr1", sequence_type=st["CHROMOSOME"],
+                                                               sequence=mk_sequence(it, "TTGTACGTACGTACGTACAA", id="chr1", type=st["CHROMOSOME"]))),
     }
     ops = [("has_overlap", {}), ("has_overlap", {"match_strand": True}), ("intersection", {}), ("minus", {}), ("contains", {})]
     n = 0
